@@ -578,3 +578,65 @@ func H14_sizes() {
 	vrtAssert("C14.backing_array_is_the_ring", int64(len(bf.buf)) == bf.size)
 	vrtReach("C14.sizes")
 }
+
+// H14_second_lap: the consumer peeks a block that straddles the end of the ring, commits it, and one lap
+// later - after 16384 further bytes went through the ring, none of them read across its end - peeks a
+// block that straddles the end again, starting at the same ring index, with other contents and a
+// length that may be smaller, equal or larger. (The lap in between is not executed: cursors and contents
+// are set to what any sequence of non-wrapping operations leaves behind; such operations touch nothing
+// else.) What is returned must be the bytes of the second lap (round-8 change C14-15: a scratch copy for
+// wrapped peeks that is kept, keyed by the ring index, and not invalidated by a commit).
+func H14_second_lap() {
+	bf, err := newBuffer(1)
+	if err != nil {
+		panic(err)
+	}
+	a := int64(1 + vrtChoice("bytes_before_the_end", 3))
+	n1 := 4 + vrtChoice("first_len", 3)
+	n2 := 4 + vrtChoice("second_len", 3)
+	lap := int64(1 + vrtChoice("laps_before", 2))
+	c := lap*bf.size - a
+	fill := func(base int64, n int, name string) []byte {
+		xs := make([]byte, n)
+		for i := range xs {
+			xs[i] = vrtByte(name)
+			bf.buf[(base+int64(i))&bf.mask] = xs[i]
+		}
+		return xs
+	}
+	peek := func(n int, second bool) ([]byte, error) {
+		if vrtBool("readwait") {
+			return bf.ReadWait(n)
+		}
+		if second && vrtBool("header_first") {
+			// the way the processor asks: a short peek first, then the whole block
+			if _, err := bf.ReadPeek(2); err != nil {
+				return nil, err
+			}
+		}
+		return bf.ReadPeek(n)
+	}
+	bf.cseq.set(c)
+	bf.pseq.set(c + int64(n1))
+	bf.pseq.gate = c
+	x := fill(c, n1, "x")
+	p1, err := peek(n1, false)
+	vrtAssert("C14.peek_len", vrtAnd(err == nil, len(p1) == n1))
+	for i := 0; i < n1 && i < len(p1); i++ {
+		vrtAssert("C14.peek_stream_bytes", p1[i] == x[i])
+	}
+	k, err := bf.ReadCommit(n1)
+	vrtAssert("C14.readcommit_ok", vrtAnd(err == nil, k == n1))
+	// one lap later
+	c += bf.size
+	bf.cseq.set(c)
+	bf.pseq.set(c + int64(n2))
+	bf.pseq.gate = c
+	y := fill(c, n2, "y")
+	p2, err := peek(n2, true)
+	vrtAssert("C14.peek_len", vrtAnd(err == nil, len(p2) == n2))
+	for i := 0; i < n2 && i < len(p2); i++ {
+		vrtAssert("C14.second_lap_bytes", p2[i] == y[i])
+	}
+	vrtReach("C14.second_lap")
+}
